@@ -10,6 +10,7 @@ usage: tools/benign.py import <ID>            copy /tmp/benign-<ID>-out/patch*.d
 """
 import json, os, subprocess, sys, shutil, tempfile, time
 
+os.environ.setdefault("DBUS_SESSION_BUS_ADDRESS", "unix:path=/nonexistent/verif-no-session-bus")  # no dbus autolaunch by keyring probes
 ROOT = os.path.dirname(os.path.dirname(os.path.abspath(__file__)))
 DIR = os.path.join(ROOT, "benign")
 ENV = dict(os.environ, GOFLAGS="-mod=mod", GOPROXY="off", GOSUMDB="off", GOTOOLCHAIN="local")
